@@ -127,6 +127,10 @@ C03_MessageShown == IsReq /\ Ev.panic = "" /\ Ev.post.havevm /\ RPost.errp.cls =
 C03_RoutedInput == RJudged /\ ~Refused /\ RQ.ran /\ Ev.niter > 0 => RPost.input = In(Ev.input)
 C04_ReqNav == RJudged /\ ~Refused => NavProj(RQ.e.s) = NavProj(RPost)
 
+\* ---- C05 at request level: no cache scope outlives its stack level (one scope per level and the base scope at most;
+\*      fewer only after a CROAK, which is C08's known finding)
+C05_ReqNoOrphanScope == IsReq /\ Ev.panic = "" /\ Ev.fpanic = "" /\ Levels(RPre) => Len(RPost2.c.frames) <= Len(RPost2.path) + 1
+
 \* ---- C17: refused input has no effect
 \* (not judged for applications with a pre-VM check: by design it runs, in its scratch scope, before the input is validated)
 C17_Refused == IsReq /\ Refused /\ ~Ev.cfg.first =>
